@@ -32,6 +32,8 @@ def main():
     checks = []
     for pid in sorted(CLAIMS):
         technique, text, note, ref = CLAIMS[pid]
+        mod = importlib.import_module(f'sa.props.{pid.lower()}')
+        text = text + ' Rules armed (each explained in evidence coverage.explanation and RULES.md): ' + ', '.join(r for r, _ in mod.RULES) + '.'
         checks.append({
             'property_id': pid,
             'quick_cmd': f'/venv/bin/python -m sa.check {pid} --tier quick',
